@@ -248,6 +248,9 @@ func init() {
 			}
 		}
 		c.Count("theorem-coverage", fmt.Sprintf("documents certified wire-compatible (yaml_json_agree applies): %d of %d", wc, nd))
+		// the YAML methods exist whenever --extra-imports is given, whatever the other flags say: the command line
+		// generates what the library generates (all rows with -e of the option matrix)
+		cliEqualsLibrary(c, buildCLI(c), true, &fails)
 		breaks(c, res, nil, fails > 0)
 		c.FactsVerdict(fails > 0)
 		knownProgramFindings(c)
